@@ -116,7 +116,12 @@ func (c rendererContext) Get(name string) any {
 
 func (c rendererContext) ExpandTagArg() (string, error) {
 	args := c.TagArgs()
-	if strings.Contains(args, "{{") {
+	// the argument is expanded when it contains an object, as the engine's delimiters spell one
+	left := "{{"
+	if d := c.ctx.config.Delims; len(d) > 0 && d[0] != "" {
+		left = d[0]
+	}
+	if strings.Contains(args, left) {
 		root, err := c.ctx.config.Compile(args, c.sourceLoc())
 		if err != nil {
 			return "", err
